@@ -123,5 +123,40 @@ def main_sgen():
     sys.exit(1 if fails else 0)
 
 
+def main_gens_at_one_bus():
+    """two different synchronous generators at one bus: the short-circuit result does not depend on their order in net.gen, and equals the
+    result with each generator at its own bus joined by a closed bus-bus switch"""
+    import numpy as np
+    import pandapower as pp
+    import pandapower.shortcircuit as sc
+    fails = []
+    g1 = dict(p_mw=5., vn_kv=10.5, sn_mva=10., xdss_pu=0.12, rdss_ohm=0.05, cos_phi=0.8)
+    g2 = dict(p_mw=8., vn_kv=10., sn_mva=30., xdss_pu=0.25, rdss_ohm=0.02, cos_phi=0.95)
+
+    def build(order, split=False):
+        net = pp.create_empty_network()
+        b0 = pp.create_bus(net, 10.); b1 = pp.create_bus(net, 10.)
+        pp.create_line_from_parameters(net, b0, b1, 2., 0.2, 0.3, 100., 0.4, endtemp_degree=80.)
+        pp.create_ext_grid(net, b1, s_sc_max_mva=100., rx_max=0.1)
+        second = b0
+        if split:
+            second = pp.create_bus(net, 10.)
+            pp.create_switch(net, b0, second, "b", closed=True)
+        for k, g in enumerate(order):
+            pp.create_gen(net, b0 if k == 0 else second, **g)
+        sc.calc_sc(net, case="max", bus=[b0])
+        return net.res_bus_sc.ikss_ka.at[b0]
+    a, b, c = build([g1, g2]), build([g2, g1]), build([g1, g2], split=True)
+    if abs(a - b) > 1e-6:
+        fails.append(f"two generators at one bus: ikss = {a:.4f} kA with the generators in one order, {b:.4f} kA in the other")
+    if abs(a - c) > 1e-6 and abs(b - c) > 1e-6:
+        fails.append(f"two generators at one bus: ikss = {a:.4f} / {b:.4f} kA, with the second generator on a bus fused by a bus-bus switch {c:.4f} kA")
+    for f in fails:
+        print("REPRODUCED:", f)
+    if not fails:
+        print("not reproduced: generators sharing a bus are corrected individually")
+    sys.exit(1 if fails else 0)
+
+
 if __name__ == "__main__":
     main()
